@@ -3,6 +3,7 @@ package server
 import (
 	"bytes"
 	"errors"
+	"math"
 	"sort"
 	"strconv"
 	"strings"
@@ -11,6 +12,9 @@ import (
 	"time"
 
 	"github.com/tidwall/buntdb"
+	"github.com/tidwall/geojson"
+	"github.com/tidwall/geojson/geo"
+	"github.com/tidwall/geojson/geometry"
 	"github.com/tidwall/gjson"
 	"github.com/tidwall/resp"
 	"github.com/tidwall/tile38/internal/endpoint"
@@ -188,7 +192,7 @@ func (s *Server) cmdSetHook(msg *Message) (
 
 	// remove previous hook from spatial index
 	if prevHook != nil && prevHook.Fence != nil && prevHook.Fence.obj != nil {
-		rect := prevHook.Fence.obj.Rect()
+		rect := hookRect(prevHook.Fence.obj)
 		s.hookTree.Delete(
 			[2]float64{rect.Min.X, rect.Min.Y},
 			[2]float64{rect.Max.X, rect.Max.Y},
@@ -202,7 +206,7 @@ func (s *Server) cmdSetHook(msg *Message) (
 	}
 	// add hook to spatial index
 	if hook != nil && hook.Fence != nil && hook.Fence.obj != nil {
-		rect := hook.Fence.obj.Rect()
+		rect := hookRect(hook.Fence.obj)
 		s.hookTree.Insert(
 			[2]float64{rect.Min.X, rect.Min.Y},
 			[2]float64{rect.Max.X, rect.Max.Y},
@@ -256,7 +260,7 @@ func (s *Server) cmdDELHOOKop(name string, channel bool) (updated bool) {
 	s.groupDisconnectHook(hook.Name)
 	// remove hook from spatial index
 	if hook.Fence != nil && hook.Fence.obj != nil {
-		rect := hook.Fence.obj.Rect()
+		rect := hookRect(hook.Fence.obj)
 		s.hookTree.Delete(
 			[2]float64{rect.Min.X, rect.Min.Y},
 			[2]float64{rect.Max.X, rect.Max.Y},
@@ -716,4 +720,20 @@ func (h *Hook) proc() (ok bool) {
 		}
 	}
 	return true
+}
+
+// hookRect is the rectangle a fence is registered under in the hook index. For
+// a circle (NEARBY ... FENCE) it is the rectangle around the circle itself: the
+// box of the polygon that stands for the circle does not reach the circle's east
+// and west extremes, and an object entering there would not find the hook.
+func hookRect(obj geojson.Object) geometry.Rect {
+	rect := obj.Rect()
+	if circle, ok := obj.(*geojson.Circle); ok && circle.Meters() > 0 {
+		center := circle.Center()
+		minLat, minLon, maxLat, maxLon :=
+			geo.RectFromCenter(center.Y, center.X, circle.Meters())
+		rect.Min.X, rect.Min.Y = math.Min(rect.Min.X, minLon), math.Min(rect.Min.Y, minLat)
+		rect.Max.X, rect.Max.Y = math.Max(rect.Max.X, maxLon), math.Max(rect.Max.Y, maxLat)
+	}
+	return rect
 }
